@@ -95,6 +95,7 @@ package keeper
 //@   ensures err == nil && req.Sequence < n ==> ret0.Result == NOOP                               // C06: stale_is_noop
 //@   ensures req.Sequence > n ==> err != nil                                                      // C06: ahead_is_rejected
 //@   ensures err == nil && req.Sequence == n ==> ret0.Result == SUCCESS && NextL1Sequence == n + 1      // C06: processed_once_in_order
+//@   ensures $called("handleBridgeHook") > 0 ==> req.Sequence == n && $at("handleBridgeHook", NextL1Sequence) == n + 1   // C06: sequence_advanced_before_the_hook_runs
 //@   ensures err == nil && req.Sequence < n ==> NextL1Sequence == old(NextL1Sequence) && NextL2Sequence == old(NextL2Sequence) && bank.bal == old(bank.bal)
 //@        && bank.supply == old(bank.supply) && DenomPairs == old(DenomPairs) && auth.acc == old(auth.acc) && bank.meta == old(bank.meta)   // C06: noop_changes_nothing
 //@   emits err == nil && req.Sequence < n ==> nothing                                             // C06: noop_emits_nothing
